@@ -37,6 +37,12 @@ type (
 		Body   Expr
 	}
 	EIte struct{ C, A, B Expr }
+	// ECompLit: a struct value T{Field: expr, ...} (unnamed fields are zero)
+	ECompLit struct {
+		Type   string
+		Names  []string
+		Values []Expr
+	}
 )
 
 type QVar struct{ Name, Type string }
@@ -74,6 +80,13 @@ func (e *EQuant) String() string {
 		vs = append(vs, v.Name+" "+v.Type)
 	}
 	return "(" + q + " " + strings.Join(vs, ", ") + " :: " + e.Body.String() + ")"
+}
+func (e *ECompLit) String() string {
+	var fs []string
+	for i, n := range e.Names {
+		fs = append(fs, n+": "+e.Values[i].String())
+	}
+	return e.Type + "{" + strings.Join(fs, ", ") + "}"
 }
 func (e *EIte) String() string {
 	return "ite(" + e.C.String() + ", " + e.A.String() + ", " + e.B.String() + ")"
@@ -312,6 +325,36 @@ func (p *eparser) postfix(e Expr) Expr {
 			} else {
 				e = &ECall{e, args}
 			}
+		case p.isOp("{"):
+			// composite literal: only after a (qualified) type name
+			tn := ""
+			switch t := e.(type) {
+			case *EIdent:
+				tn = t.Name
+			case *ESel:
+				if id, ok := t.X.(*EIdent); ok {
+					tn = id.Name + "." + t.Name
+				}
+			}
+			if tn == "" {
+				p.fail("composite literal needs a type name")
+			}
+			p.p++
+			cl := &ECompLit{Type: tn}
+			for !p.isOp("}") {
+				n := p.next()
+				if n.k != "id" {
+					p.fail("field name expected in composite literal")
+				}
+				p.expect(":")
+				cl.Names = append(cl.Names, n.v)
+				cl.Values = append(cl.Values, p.expr(0))
+				if p.isOp(",") {
+					p.p++
+				}
+			}
+			p.expect("}")
+			e = cl
 		case p.isOp("["):
 			p.p++
 			var lo, hi Expr
